@@ -129,7 +129,13 @@ func c18Check(r *simkit.Run, ep *adminEndpoint, q c18Req, cerr error, altered, s
 			r.Violate("c18.accepted", "%s request naming %s but signed by %s (%s) was accepted", kindName(q.ingest), q.named.Name, q.signer.Name, desc)
 		case !same:
 			r.Violate("c18.accepted", "%s request altered in transit (%s) was accepted with different content", kindName(q.ingest), desc)
+		case altered && (strings.Contains(desc, "flipped") || strings.Contains(desc, "truncated")):
+			// a changed or missing byte of the sealed request - payload, key
+			// or signature - must be rejected even if the decoded fields are
+			// the same (e.g. a changed signature byte)
+			r.Violate("c18.accepted", "%s request altered in transit (%s) was accepted", kindName(q.ingest), desc)
 		case altered:
+			// bytes appended after the envelope that its encoding ignores
 			r.Probe("accepted-semantically-equal")
 		default:
 			r.Probe("accepted")
@@ -212,6 +218,7 @@ func runC18(r *simkit.Run, c Cfg) {
 			q := mkReq(ingest, keyType, false)
 			exchange(t, q, nil, false, "untouched")
 			n := len(ep.lastBody)
+			first := append([]byte(nil), ep.lastBody...)
 			bits := 1
 			if c.Tier == "thorough" {
 				bits = 8
@@ -222,6 +229,15 @@ func runC18(r *simkit.Run, c Cfg) {
 					exchange(t, q, func(body []byte) []byte { return flipBit(body, bit) }, false, fmt.Sprintf("bit %d of byte %d/%d flipped", bit%8, pos, n))
 				}
 			}
+			// the same, on a copy of the request that was accepted before (a
+			// reader that remembers what it has verified must still look at
+			// every byte of what it is given)
+			accepted0 := append([]byte(nil), first...)
+			for pos := 0; pos < len(accepted0) && !r.Failed(); pos++ {
+				bit := pos*8 + (pos+3)%8
+				exchange(t, q, func(body []byte) []byte { return flipBit(accepted0, bit) }, false, fmt.Sprintf("earlier accepted request replayed with bit %d of byte %d/%d flipped", bit%8, pos, len(accepted0)))
+			}
+			exchange(t, q, func(body []byte) []byte { return append([]byte(nil), accepted0...) }, false, "earlier accepted request replayed unchanged")
 			for k := 0; k < n && !r.Failed(); k += 1 + n/64 {
 				k := k
 				exchange(t, q, func(body []byte) []byte { return body[:k] }, false, fmt.Sprintf("truncated to %d/%d", k, n))
